@@ -265,6 +265,19 @@ func c09PayloadMutations(b *c09Base) (out [][]byte, classes []string) {
 		out = append(out, c09Splice(b.payload, s.pos, s.width, enc))
 		classes = append(classes, "mut:length-varint-nonminimal")
 	}
+	// the CBOR header: the roots array head (a2 65 "roots" <head>) replaced by heads declaring 2^31-1, 2^32,
+	// 2^62, 2^64-1 elements and an indefinite-length array; the frame length is kept consistent
+	hv := uvarintLen(uint64(b.hdrLen))
+	if b.hdrLen > 8 && b.payload[hv+7]&0xe0 == 0x80 && b.payload[hv+7]&0x1f < 24 {
+		for _, head := range [][]byte{{0x9a, 0x7f, 0xff, 0xff, 0xff}, {0x9b, 0, 0, 0, 1, 0, 0, 0, 0},
+			{0x9b, 0x3f, 0xff, 0xff, 0xff, 0xff, 0xff, 0xff, 0xff}, {0x9b, 0xff, 0xff, 0xff, 0xff, 0xff, 0xff, 0xff, 0xff}, {0x9f}} {
+			hb := c09Splice(b.payload[hv:hv+b.hdrLen], 7, 1, head)
+			m := append(c09PutUvarint(uint64(len(hb))), hb...)
+			m = append(m, b.payload[hv+b.hdrLen:]...)
+			out = append(out, m)
+			classes = append(classes, "mut:cbor-array-length")
+		}
+	}
 	for i, x := range b.blks {
 		if x.Cid.Version() == 0 {
 			continue
@@ -601,7 +614,46 @@ func c09Produce(c *Ctx) {
 			c09Plan(r, &plan, mk(ix, "raw-random-index", false, false), c09DefaultRow, []int{c09EIdxRead})
 		}
 	}
+	c09SmallScope(c, &plan)
 	c09Execute(c, plan)
+}
+
+// c09SmallScope: EVERY string of up to 2 (thorough: 3) bytes over a 16-letter alphabet of structurally
+// meaningful bytes, on its own, behind a valid header, behind the CARv2 pragma and behind each index codec.
+func c09SmallScope(c *Ctx, plan *[]c09Planned) {
+	r := c.R.Fork()
+	alphabet := []byte{0x00, 0x01, 0x02, 0x04, 0x08, 0x0a, 0x12, 0x20, 0x55, 0x70, 0x7f, 0x80, 0x81, 0xa1, 0xa2, 0xff}
+	maxLen := 2
+	if c.Thorough {
+		maxLen = 3
+	}
+	var strs [][]byte
+	var gen func(prefix []byte)
+	gen = func(prefix []byte) {
+		strs = append(strs, append([]byte(nil), prefix...))
+		if len(prefix) == maxLen {
+			return
+		}
+		for _, a := range alphabet {
+			gen(append(prefix, a))
+		}
+	}
+	gen(nil)
+	b := c09MakeBase(r)
+	hdr := b.payload[:b.lay.hdrEnd]
+	mk := func(data []byte, class string, v2 bool) *c09Input {
+		return &c09Input{data: data, class: class, v2: v2, roots: b.rootBytes(), keys: b.keys(r)}
+	}
+	cat := func(a, b []byte) []byte { return append(append([]byte(nil), a...), b...) }
+	for _, t := range strs {
+		c09Plan(r, plan, mk(t, "small-scope:bare", false), c09DefaultRow, append([]int{c09EV2Hdr, c09EIdxRead}, c09CarEntries...))
+		row := c09DefaultRow
+		row.zeof = len(t)%2 == 1
+		c09Plan(r, plan, mk(cat(hdr, t), "small-scope:after-header", false), row, c09CarEntries)
+		c09Plan(r, plan, mk(cat(carv2.Pragma, t), "small-scope:after-pragma", true), row, c09CarEntries)
+		c09Plan(r, plan, mk(cat([]byte{0x80, 0x08}, t), "small-scope:index-sorted", false), c09DefaultRow, []int{c09EIdxRead})
+		c09Plan(r, plan, mk(cat([]byte{0x81, 0x08}, t), "small-scope:index-mh-sorted", false), c09DefaultRow, []int{c09EIdxRead})
+	}
 }
 
 func c09Execute(c *Ctx, plan []c09Planned) {
